@@ -171,7 +171,17 @@ def rule_alias(repo, rule='C05.R3', modes=(False, True)):
     init = repo.own_method('CoderState', '__init__')
     tinit = repo.own_method('TemplateData', '__init__')
     for comp in modes:
-        for n in (2, 3):
+        for n in (1, 2, 3):
+            for st in fold_init(repo, comp, n):
+                # the state works in the mode and with the subset count it is created with, whatever the count is (a compressed
+                # message of one subset is still laid out as minimum / width / increments)
+                rr.instance('CoderState(is_compressed=%s, n_subsets=%d) keeps mode and count' % (comp, n))
+                if st.fields.get('is_compressed') is not comp or st.fields.get('n_subsets') != n:
+                    rr.fail('CoderState.__init__:mode', init.where, 'CoderState(is_compressed=%s, n_subsets=%d) works with is_compressed=%r, n_subsets=%r: the data '
+                            'section would be read / written in the other layout' % (comp, n, st.fields.get('is_compressed'), st.fields.get('n_subsets')),
+                            witness={'is_compressed': comp, 'n_subsets': n})
+            if n == 1:
+                continue
             for st in fold_init(repo, comp, n):
                 for attr in ('decoded_descriptors', 'bitmap_links', 'decoded_values'):
                     judge('CoderState', init.where, comp, n, attr, st.fields.get(attr + '_all_subsets'), st.fields.get(attr), attr == 'decoded_values')
